@@ -36,6 +36,7 @@ static void fault_counter(int kind)
 	if (kind < 0 || kind >= F_N) return;
 	if (!g_fault_ctr[kind]) g_fault_ctr[kind] = counter_id("fault", shim_fault_names[kind]) + 1;
 	count(g_fault_ctr[kind] - 1);
+	if (g_hooks.on_fault) g_hooks.on_fault(kind);
 }
 
 void shim_reset()
